@@ -19,12 +19,17 @@ cmake -G Ninja -S "$WT" -B "$WT/_b" -DCMAKE_BUILD_TYPE=RelWithDebInfo -DMICM_ENA
   -DFETCHCONTENT_UPDATES_DISCONNECTED=ON >"$WT/_cfg.log" 2>&1 || { echo CONFIGURE-FAILED; tail -5 "$WT/_cfg.log"; }
 cmake --build "$WT/_b" -j8 >"$WT/_build.log" 2>&1 && echo BUILD-OK || { echo BUILD-FAILED; tail -20 "$WT/_build.log"; }
 ctest --test-dir "$WT/_b" -j8 --timeout 900 2>&1 | tail -4
+LLVMC=""; LLVML=""
+if grep -q "micm/jit" "$OUT/demo.cpp"; then
+  LLVMC=$(llvm-config --cxxflags | sed 's/-std=[^ ]*//;s/-fno-exceptions//;s/-fno-rtti//')
+  LLVML=$(llvm-config --ldflags --system-libs --libs support core orcjit native irreader)
+fi
 echo "== demo on the changed tree"
-g++ -std=c++20 -O1 -I"$WT/include" "$OUT/demo.cpp" -o "$WT/_demo_changed" -pthread 2>&1 | tail -5
+g++ -std=c++20 -O1 -I"$WT/include" $LLVMC "$OUT/demo.cpp" -o "$WT/_demo_changed" -pthread $LLVML 2>&1 | tail -5
 ( cd "$OUT" && timeout 300 "$WT/_demo_changed" 2>&1 | tail -25; echo "exit=$?" )
 git checkout -q -- include
 echo "== demo on the unchanged tree"
-g++ -std=c++20 -O1 -I"$WT/include" "$OUT/demo.cpp" -o "$WT/_demo_clean" -pthread 2>&1 | tail -5
+g++ -std=c++20 -O1 -I"$WT/include" $LLVMC "$OUT/demo.cpp" -o "$WT/_demo_clean" -pthread $LLVML 2>&1 | tail -5
 ( cd "$OUT" && timeout 300 "$WT/_demo_clean" 2>&1 | tail -25; echo "exit=$?" )
 } > "$OUT/confirm.txt" 2>&1
 cd /; git -C /repo worktree remove --force "$WT" >/dev/null 2>&1; rm -rf "$WT"
